@@ -120,8 +120,19 @@ BulkOK(b) ==
     [] b.obj = "ticket"  -> b.final = b.init + b.ops /\ b.distinct = b.ops          \* Increment only: every call returned a different running total
     [] b.obj = "drain"   -> b.drained + b.final = b.sum                               \* Add and Reset mixed: what the Resets returned plus what is left = all adds
     [] b.obj = "tas"     -> b.winners = b.iters                                      \* flag as test-and-set: of the Sets racing for an unset flag exactly one returns "was unset"
+    \* aggregate reads against a writer that moves one token between two keys (insert the other key, then remove the current one)
+    \* next to b.static unchanged keys: every state of the sequential map holds the token and at least static + 1 keys (SnapStates
+    \* below), so no linearizable Len / Keys / Values reports fewer keys or misses the token
+    [] b.obj = "snap"    -> b.minlen >= b.static + 1 /\ b.missing = 0 /\ b.short = 0
     [] b.obj = "gas"     -> \A x \in ToSet(b.charges) : P19_OneSchedule(x.c, x.m, x.n) \* every distinct (charge, m, n) seen under repricing
     [] OTHER -> b.final \in ToSet(b.lasts)
+
+\* the states the token-moving writer drives the sequential map through (two rounds of its program from {1 -> 1})
+SnapProg == <<[op |-> "Insert", k |-> 2, v |-> 2], [op |-> "Remove", k |-> 1, v |-> 0], [op |-> "Insert", k |-> 1, v |-> 1], [op |-> "Remove", k |-> 2, v |-> 0],
+             [op |-> "Insert", k |-> 2, v |-> 2], [op |-> "Remove", k |-> 1, v |-> 0]>>
+RECURSIVE SnapStates(_, _)
+SnapStates(m, i) == IF i > Len(SnapProg) THEN {m} ELSE {m} \cup SnapStates(MapApply(m, SnapProg[i]).st, i + 1)
+ASSUME \A m \in SnapStates((1 :> 1), 1) : Cardinality(DOMAIN m) >= 1 /\ ({1, 2} \cap DOMAIN m) # {}
 
 ---------------------------------------------------------------------------
 (* Part 2: the lock protocol of a priced function *)
